@@ -622,6 +622,71 @@ rng = chk.rng('history')
 for i in range(6000 if chk.thorough else 500):
     cases.append(('history-%d' % i, gen_history(rng), None, None))
 
+# ----------------------------------------------------------------------------
+# mapping-definition stream (harness/c09_map.py): REAL do_mapping then REAL DoAverageBead on the toy force
+# fields / molecules of the C01 generators (block mappings: shared atoms, zero weights, spawned particles,
+# overlapping matches; modification mappings that RE-WEIGHT an atom the block mapping already maps, new
+# PTM particles), dyadic coordinates / masses on the INPUT molecule.  Model: the composed Lean model
+# (`pipe`); oracle: positions recomputed from the mapping definition, not from 'mapping_weights'.
+# ----------------------------------------------------------------------------
+import c09_map
+quiet_vermouth_logs()
+map_cases = []
+try:
+    C01D = c09_map.load_c01_defs(chk)
+    mrng = chk.rng('mapdef')
+    for i in range(int(os.environ.get('C09_NMAP', 2500 if chk.thorough else 170))):
+        map_cases.append(('mapdef-blocks-%d' % i, c09_map.run_case(C01D, mrng, 'blocks')))
+    for i in range(int(os.environ.get('C09_NMOD', 2500 if chk.thorough else 170))):
+        map_cases.append(('mapdef-mods-%d' % i, c09_map.run_case(C01D, mrng, 'mods')))
+except Exception as e:
+    import traceback
+    chk.notes.append('mapping-definition stream failed: %s' % traceback.format_exc()[-800:])
+    chk.count('mapdef_stream_failed')
+    chk.case('mapdef-stream', 'mapdef', 'stream-failed', 'stream-ok',
+             ['the mapping-definition stream could not be generated: %r' % (e,)], True)
+    map_cases = []
+quiet_vermouth_logs()
+mmodels = chk.drv.ask([c['line'] for _, c in map_cases]) if chk.lean_ok else [None] * len(map_cases)
+for (cid, c), mo in zip(map_cases, mmodels):
+    errs, flags = [], set()
+    if c['status'] == 'ok':
+        errs, flags = c09_map.definition_oracle(c, c['out'], c['raw_pos'], c['status2'])
+        if c['status2'].startswith('exception') or c['status2'] == 'returned-other-object':
+            errs.append('unexpected behaviour of DoAverageBead: ' + c['status2'])
+    elif c['status'].startswith('exception'):
+        errs.append('unexpected behaviour of do_mapping: ' + c['status'])
+    chk.count('mapdef_kind=' + c['kind'])
+    chk.count('mapdef_outcome=' + c['impl'].split()[0] + ('' if c['status'] == 'ok' else ' ' + c['status']))
+    chk.count('mapdef_config weight=%r ffvar=%r' % (c['weight'], c['ffvar']))
+    chk.count('mapdef_block_matches', len(c['rawb']))
+    chk.count('mapdef_mod_matches', len(c['rawm']))
+    if c['rawm']:
+        chk.count('mapdef_case_with_mod_match')
+        # does a modification mapping re-weight an atom its block mapping maps to the same particle name?
+        rew = False
+        for i, mt in c['rawm']:
+            m = c['mods'][i]
+            for atom, f in mt:
+                for b, w in m.mapping.get(f, {}).items():
+                    if m.block_to.nodes[b].get('PTM_atom', False):
+                        continue
+                    for j, bt in c['rawb']:
+                        bm = c['blocks'][j]
+                        for a2, f2 in bt:
+                            if a2 == atom:
+                                for t, w2 in bm.mapping.get(f2, {}).items():
+                                    if bm.block_to.nodes[t].get('atomname') == m.block_to.nodes[b].get('atomname') \
+                                            and F(w2) != F(w):
+                                        rew = True
+        if rew:
+            chk.count('mapdef_case_reweighted_by_modification')
+            flags.add('reweighted')
+    for f in sorted(flags):
+        chk.count('mapdef_flag_' + f)
+    nontriv = c['status2'] == 'ok' and ('unequal' in flags or 'reweighted' in flags or 'shared_atoms' in flags)
+    chk.case(cid, c['line'], c['impl'], mo, [str(e) for e in errs], nontriv)
+
 lines, impls, raws, pre_errs = [], [], [], []
 for cid, c, twin, motion in cases:
     if c['entry'] == 'history':
